@@ -58,6 +58,13 @@ func init() {
 				}
 			}
 			ops = append(ops, regOps(m, []int{0, 3})...)
+			if m.NumAlive() == 0 {
+				// components created without a value must read as zero whatever the tables held before the Reset
+				ops = append(ops,
+					model.Op{K: model.OpNew, Path: model.PathMapN, Cs: ct.Of(ct.P), Init: model.InitNil},
+					model.Op{K: model.OpNewBatch, Path: model.PathMapN, Cs: ct.Of(ct.P), N: 3, Init: model.InitNil},
+				)
+			}
 			ops = append(ops, model.Op{K: model.OpResAdd, N: 0}, model.Op{K: model.OpResAdd, N: 1}, model.Op{K: model.OpEmit, E: model.ZeroTarget, N: 0}, model.Op{K: model.OpStats})
 			ops = append(ops, queryOps(m, []int{0}, nil)...)
 			return ops
